@@ -104,6 +104,7 @@ def core_doc(adoc):
 def explore(ctx, depth):
     import docrun, gen
     import kernpy as kp
+    long_excerpts(ctx)
     n = 30 if depth == 'quick' else 300
     core = docrun.make_cases(ctx, n, kern_only=True, profiles=('core',), split_depth=1, max_measures=4)
     core += docrun.make_cases(ctx, 0, docs=[gen.nested_split_doc(ctx.rng) for _ in range(n)])
@@ -125,6 +126,7 @@ def explore(ctx, depth):
             if case.doc is None:
                 continue
             is_core = stream == 'core' and core_doc(case.adoc)
+            first_results = {}
             ctx.count('stream:%s:%s' % (stream, 'core' if is_core else 'outside'))
             full = docrun.dumps_public(case, {'types': case.types})
             ft = track(full['ok']) if 'ok' in full else {'ok': False}
@@ -133,6 +135,7 @@ def explore(ctx, depth):
                 model = mr['exports'][k] if 'exports' in mr else None
                 inp = {'text': case.text, 'from_measure': a, 'to_measure': b, 'spine_types': case.types}
                 tie_ok = got == model
+                first_results[(a, b)] = got
                 ctx.check({**inp, 'clause': 'tie'}, got, model, None, nontrivial=(a or 0) > 1, what='excerpt differs from the model')
                 klass = classify(case.adoc, a)
 
@@ -168,6 +171,39 @@ def explore(ctx, depth):
                     if not ok:
                         bad('same governing signatures', 'a note of the excerpt is not governed by the same clef / key signature / time signature as in the full score',
                             impl=[list(x) for x in en[:3]])
+            if first_results:
+                repeat_reversed(ctx, case, first_results)
+
+
+def repeat_reversed(ctx, case, first_results):
+    """the same excerpts again on the same document object, in the opposite order (wide before narrow, late before early): each must be what it was"""
+    import docrun
+    for (a, b) in sorted(first_results, key=lambda p: (-(p[0] or 0), -(p[1] if p[1] is not None else 10 ** 6))):
+        again = docrun.dumps_public(case, {'from': a, 'to': b, 'types': case.types})
+        if again != first_results[(a, b)]:
+            ctx.fail({'text': case.text, 'from_measure': a, 'to_measure': b, 'spine_types': case.types, 'clause': 'the same excerpt again, after the others in reverse order'},
+                     'an excerpt differs when it is exported again after other excerpts of the same document', impl=again, expected=first_results[(a, b)])
+            return
+
+
+def long_excerpts(ctx):
+    """a long score: excerpts that start late must be well-formed, re-import without errors and keep clef and meter"""
+    import gen
+    import kernpy as kp
+    text, rows = gen.long_score(2)
+    doc = kp.loads(text)[0]
+    M = len(doc.measure_start_tree_stages)
+    for a, b in ((M - 2, M - 1), (M // 2, M // 2), (M - 400, M - 399)):
+        got = call(lambda: kp.dumps(doc, from_measure=a, to_measure=b))
+        ctx.seen({'clause': 'long score excerpt', 'from_measure': a, 'to_measure': b}, True)
+        if 'ok' not in got:
+            ctx.fail({'clause': 'long score excerpt', 'rows': len(rows), 'from_measure': a, 'to_measure': b, 'text_head': text[:60]}, 'a valid measure range of a long score raises', impl=got)
+            continue
+        t = track(got['ok'])
+        ok = t['ok'] and all(dict(sig).get('clef') == '*clefG2' and dict(sig).get('timesig') == '*M4/4' for (_, _, sig) in t['notes']) and len(t['notes']) > 0
+        if not ok:
+            ctx.fail({'clause': 'long score excerpt', 'rows': len(rows), 'from_measure': a, 'to_measure': b, 'text_head': text[:60]},
+                     'the excerpt of a long score is not well-formed or its notes are not under the clef and meter of the full score', impl=got['ok'][:300])
 
 
 def classify(adoc, a):
